@@ -9,6 +9,7 @@ CONSTANTS
   Meds = {FALSE, TRUE}
   AllowClear = TRUE
   DeltaOpts = {TRUE, FALSE}
+  PayKinds = {"sim", "unrel"}
   AsCoded = FALSE
   Withhold = FALSE
 INVARIANTS TypeOK C14 HeldIsLast
